@@ -82,12 +82,22 @@ CHECKS = {
         note='Trusted: z3, symx, my instruction-boundary decoder (operand layout only). Bounds: <= 3-4 calls (quick) / 4-6 (thorough); opcode bytes concrete, operands symbolic.',
         design='DESIGN.md 5 C14',
     ),
+    'C15': dict(
+        text='convert_to_number is translated from its AST (re-read from converter.py on every run) into a z3 integer term for each word length <= 9; z3 shows for all letter choices at once that it equals the Appendix-B value, that encode-then-decode is the identity for every number up to 20*5^8 = 9 765 620 and that no two words decode to the same number. Label lists, blanks, Z marks at every position and the numbering of mandatory hypotheses run through the real _import_proof on databases built as ASTs, under every order of the floating statements and every iteration order of the set of mandatory variables.',
+        note='Trusted: z3, py2smt-mini (a construct it does not know makes the check inconclusive), my Appendix-B reference. Bounds: words <= 9 letters; <= 3 mandatory variables, <= 3 labels, <= 2-4 steps drawn from the boundary numbers.',
+        design='DESIGN.md 5 C15',
+        technique='direct SMT encoding of the kernel from its Python AST (z3, linear integer arithmetic) + bounded exhaustive execution of the real _import_proof with nondeterministic set iteration order',
+    ),
+    'C19': dict(
+        text='For every live notation (read from the imported modules at run time, incl. forall/sorted_exists/kore_exists/nary_app instances) and every argument its definition depends on, z3 (theory of strings) is asked for two argument tuples that differ only in that argument and render to the same text through the notation\'s format string; unsat = the rendering shows the argument. Counterexamples are replayed through the real Notation.print_instantiation. The real Instantiate.pretty is run on all pairs of applications differing in one argument with one shared options object, and pretty steps are compared one by one with the decoded binary instructions for generated call sequences and the shipped modules (both optimise settings).',
+        note='Trusted: z3 sequence theory, string.Formatter().parse, my instruction-boundary decoder. The pairs/steps parts use concrete small ids (bounded enumeration replayed on the real code); the string obligations are the solver-decided part.',
+        design='DESIGN.md 5 C19',
+        technique='z3 theory of strings on the format strings read from the live objects; bounded exhaustive execution of the real printers',
+    ),
 }
 
 NOT_YET = {
-    'C15': 'check under construction in this session; not claimed until it runs',
     'C18': 'check under construction in this session; not claimed until it runs',
-    'C19': 'check under construction in this session; not claimed until it runs',
 }
 
 NA = {
